@@ -147,6 +147,10 @@ func runLifeProfile(l *Life, profile string, n, steps int) {
 			p = SynProfile()
 		case "mergey":
 			p = MergeyProfile()
+		case "leancross":
+			l.light = true
+			l.LeanCrossScenario(fmt.Sprintf("%s-%d", profile, i))
+			continue
 		case "leanmerge":
 			p = LeanProfile()
 			l.light = true
